@@ -55,19 +55,23 @@ def _is_strlist(st, v):
 
 
 def acc(lc, hint=None, pick="inner"):
-    """The text accumulator of the loop, identified by role, not by name: a str list visible in the innermost frame that
-    has one (a helper executed in place sees it through its own parameter); among several the most recently created one
-    is the innermost accumulator, the oldest the outermost.  `hint` (a name) is only tried first."""
+    """The text accumulator of a loop, identified by role, not by name: a str list that exists when the loop is entered
+    and is visible from the innermost frame that sees one (a helper executed in place sees it through its own parameter);
+    among several, the most recently created one (lists created inside the loop body are not candidates)."""
     st = lc.st
-    if hint:
-        v = st.lookup(hint)
-        if v is not None and _is_strlist(st, v):
-            return v
+    before = lc.entry.heap if getattr(lc, "entry", None) is not None else st.heap
     for fr in reversed(st.frames):
-        cands = {v.ref: v for v in fr.env.values() if _is_strlist(st, v)}
+        cands = {v.ref: v for v in fr.env.values() if _is_strlist(st, v) and v.ref in before}
         if cands:
             return cands[(max if pick == "inner" else min)(cands)]
     raise X.Unsupported("text accumulator not identified")
+
+
+def grown(lc):
+    """((n, cat, lead) at loop entry, (n, cat, lead) now) of the loop's accumulator: invariants are stated as what the loop
+    has ADDED, so statements before the loop (and where the list comes from) do not matter."""
+    a = acc(lc)
+    return _sl(lc.entry, a), _sl(lc.st, a)
 
 
 class Sig:
@@ -280,10 +284,10 @@ def odf_contracts(reg):
         return p_obj(l[1], {f: (p_strset() if r == "skip_tags" else p_str()) for f, r in l[2].items()})
 
     def inv(lc):
-        e = lc[e_name].t
-        old = z3.String(f"{a_name}.cat")            # value at function entry (p_strlist names it)
+        e = lc.seq.t
+        (_n0, c0, _l0), (_n1, c1, _l1) = grown(lc)
         return Conj([("parts==old+text+items-of-processed-children",
-                      cat_of(lc.st, acc(lc, a_name)) == cc(old, TEXT(e), ODF_KIDS(e, lc.i, *cfg(lambda n: lc[n], lc.st))))])
+                      c1 == cc(c0, ODF_KIDS(e, lc.i, *cfg(lambda n: top(lc, n), lc.st))))])
 
     append = FnContract(
         target=f"{SHARED}::{helper}",
@@ -448,58 +452,84 @@ BODY_CHILD_CASES = [
 ]
 
 
-def docx_contracts():
-    OLD = z3.String("parts.cat")
+def top(lc, name):
+    """Value of a parameter of the function under contract, read from its own frame (also from inside a helper executed in place)."""
+    v = lc.st.frames[0].env.get(name)
+    if v is None:
+        raise KeyError(name)
+    return v
 
-    def kids_inv(var):
-        def inv(lc):
-            e, inc = (lc.seq.t if var is None else lc[var].t), lc["include_formulas"].t
-            cur = cat_of(lc.st, acc(lc, "parts"))
-            return Conj([(nm, h(cur) == cc(h(OLD), D.KIDS(e, lc.i, inc))) for nm, D, h in DX_IMAGES])
-        return inv
+
+def elem_loop(it, v):
+    return isinstance(it, VExt) and it.sort == "Elem" and isinstance(v, VExt) and v.sort == "Elem" and it.t.eq(v.t)
+
+
+def docx_contracts():
+    sp = Sig(DOCX, "_process_text_element", ["elem", "parts", "include_formulas"])
+    OLD = z3.String(f"{sp.name['parts']}.cat")
+
+    def kids_inv(lc):
+        e, inc = lc.seq.t, top(lc, sp.name["include_formulas"]).t
+        (_n0, c0, _l0), (_n1, cur, _l1) = grown(lc)
+        return Conj([(nm, h(cur) == cc(h(c0), D.KIDS(e, lc.i, inc))) for nm, D, h in DX_IMAGES])
 
     def run_inv(lc):
-        e, inc = lc["elem"].t, lc["include_formulas"].t
-        cur = cat_of(lc.st, acc(lc, "parts"))
+        e, inc = lc.seq.t, top(lc, sp.name["include_formulas"]).t
+        (_n0, c0, _l0), (_n1, cur, _l1) = grown(lc)
         last = TAG(CH(e, z3.simplify(lc.i - 1)))
-        return Conj([(f"{nm}[{cn}]", z3.Implies(g(last), h(cur) == cc(h(OLD), D.RUN(e, lc.i, inc))))
+        return Conj([(f"{nm}[{cn}]", z3.Implies(g(last), h(cur) == cc(h(c0), D.RUN(e, lc.i, inc))))
                      for nm, D, h in DX_IMAGES for cn, g in RUN_CHILD_CASES])
 
     def post(nm, D, h, guard):
         def f(c):
-            e, inc = c.args["elem"].t, c.args["include_formulas"].t
+            e, inc = sp(c, "elem").t, sp(c, "include_formulas").t
             return z3.Implies(guard(TAG(e)),
-                              h(cat_of(c.st, c.args["parts"])) == cc(h(cat_of(c.entry, c.args["parts"])), D.F(e, inc)))
-        return f
+                              h(cat_of(c.st, sp(c, "parts"))) == cc(h(cat_of(c.entry, sp(c, "parts"))), D.F(e, inc)))
+        return X.robust(f)
 
     process = FnContract(
         target=f"{DOCX}::_process_text_element",
-        params=[("elem", p_elem()), ("parts", p_strlist()), ("include_formulas", p_bool())],
+        params=sp.params({"elem": p_elem(), "parts": p_strlist(), "include_formulas": p_bool()}),
         ensures=[(f"{nm}(parts)==old+dx_{nm}(elem)[{cn}]", post(nm, D, h, g)) for nm, D, h in DX_IMAGES for cn, g in ELEM_CASES],
-        modifies=("parts",),
-        loops={0: LoopSpec(inv=kids_inv(None), label="choice-children"),
-               1: LoopSpec(inv=run_inv, label="run-children"),
-               2: LoopSpec(inv=kids_inv("elem"), label="children")},
+        modifies=(sp.name["parts"],),
     )
+
+    def process_loops(ex, st, node, it):
+        """children of the element itself: the run-item fold when the element is a run, else the generic fold;
+        children of another element (the mc:Choice): the generic fold over that element."""
+        e = st.frames[0].env.get(sp.name["elem"])
+        if not (isinstance(it, VExt) and it.sort == "Elem"):
+            return None
+        if not elem_loop(it, e):
+            return LoopSpec(inv=kids_inv, label="choice-children")
+        if not ex.feasible(st.pc, TAG(e.t) != W_R):
+            return LoopSpec(inv=run_inv, label="run-children")
+        if not ex.feasible(st.pc, TAG(e.t) == W_R):
+            return LoopSpec(inv=kids_inv, label="children")
+        return None
+    process.loop_match = process_loops
     # guards of ELEM_CASES are exhaustive: at call sites the postcondition is assumed unsplit
     process.compact_ensures = [(f"{nm}(parts)==old+dx_{nm}(elem)", post(nm, D, h, lambda t: z3.BoolVal(True))) for nm, D, h in DX_IMAGES]
     omml = FnContract(target=f"{OMML_PY}::omml_to_latex", params=[("elem", p_elem())], assumed=True,
                       returns=lambda c: VStr(OMML(c.args["elem"].t)), note="uninterpreted: C19 decides what the LaTeX is")
 
+    sq_ = Sig(DOCX, "_extract_paragraph_content", ["paragraph", "include_formulas"])
+
     def par_inv(lc):
-        e, inc = lc["paragraph"].t, lc["include_formulas"].t
-        cur = cat_of(lc.st, acc(lc))
-        return Conj([(nm, h(cur) == D.KIDS(e, lc.i, inc)) for nm, D, h in DX_IMAGES])
+        e, inc = lc.seq.t, top(lc, sq_.name["include_formulas"]).t
+        (_n0, c0, _l0), (_n1, cur, _l1) = grown(lc)
+        return Conj([(nm, h(cur) == cc(h(c0), D.KIDS(e, lc.i, inc))) for nm, D, h in DX_IMAGES])
 
     para = FnContract(
         target=f"{DOCX}::_extract_paragraph_content",
-        params=[("paragraph", p_elem()), ("include_formulas", p_bool())],
+        params=sq_.params({"paragraph": p_elem(), "include_formulas": p_bool()}),
         ensures=[(f"{nm}(result)==dx_{nm}_children(paragraph)",
-                  (lambda nm, D, h: lambda c: h(c.result.t) == D.all_kids(c.args["paragraph"].t, c.args["include_formulas"].t))(nm, D, h))
+                  (lambda nm, D, h: X.robust(lambda c: h(c.result.t) == D.all_kids(sq_(c, "paragraph").t, sq_(c, "include_formulas").t)))(nm, D, h))
                  for nm, D, h in DX_IMAGES],
         result_maker=lambda ex, st, ctx: VStr(z3.String(fresh_name("paragraph_text"))),
-        loops={0: LoopSpec(inv=par_inv, label="children")},
     )
+    para.loop_match = lambda ex, st, node, it: (LoopSpec(inv=par_inv, label="children")
+                                                if elem_loop(it, st.frames[0].env.get(sq_.name["paragraph"])) else None)
     # ---- body level --------------------------------------------------------------------------
     def tbl_result(ex, st, ctx):
         n = z3.Int(fresh_name("table_texts.len"))
@@ -507,45 +537,49 @@ def docx_contracts():
         st.assume(X.slist_wf(n, cat, lead))
         return X.mk_slist(ex, st, n, cat, lead, fresh=True)
 
+    st_ = Sig(DOCX, "_extract_table_text", ["table", "include_formulas"])
     table = FnContract(
         target=f"{DOCX}::_extract_table_text",
-        params=[("table", p_elem()), ("include_formulas", p_bool())],
+        params=st_.params({"table": p_elem(), "include_formulas": p_bool()}),
         assumed=True, result_maker=tbl_result,
-        ensures=[("nw", lambda c: NW(cat_of(c.st, c.result)) == TBLN(c.args["table"].t, c.args["include_formulas"].t)),
-                 ("sq", lambda c: lead_of(c.st, c.result) == TBLS(c.args["table"].t, c.args["include_formulas"].t)),
+        ensures=[("nw", lambda c: NW(cat_of(c.st, c.result)) == TBLN(st_(c, "table").t, st_(c, "include_formulas").t)),
+                 ("sq", lambda c: lead_of(c.st, c.result) == TBLS(st_(c, "table").t, st_(c, "include_formulas").t)),
                  ("pieces-not-blank", lambda c: (_sl(c.st, c.result)[0] == 0) == (NW(cat_of(c.st, c.result)) == lit("")))],
         note="callee contract used by the body walk; the function itself is checked exhaustively over small trees (BOUNDED, replay/C02.py)",
     )
+    sb = Sig(DOCX, "_extract_full_text_from_body", ["body", "include_formulas"])
 
     def body_inv(lc):
-        e, inc = lc["body"].t, lc["include_formulas"].t
+        e, inc = lc.seq.t, top(lc, sb.name["include_formulas"]).t
         last = TAG(CH(e, z3.simplify(lc.i - 1)))
-        n, cat, _lead = _sl(lc.st, acc(lc))
-        goals = [("nw", NW(cat) == BODYN(e, lc.i, inc)),
-                 ("sq", lead_of(lc.st, acc(lc)) == BODYS(e, lc.i, inc)),
-                 ("pieces-not-blank", (n == 0) == (NW(cat) == lit("")))]
+        (n0, c0, l0), (n, cat, lead) = grown(lc)
+        goals = [("nw", NW(cat) == cc(NW(c0), BODYN(e, lc.i, inc))),
+                 ("sq", lead == cc(l0, BODYS(e, lc.i, inc))),
+                 ("pieces-not-blank", z3.Implies((n0 == 0) == (NW(c0) == lit("")), (n == 0) == (NW(cat) == lit(""))))]
         return Conj([(f"{nm}[{cn}]", z3.Implies(g(last), t)) for nm, t in goals for cn, g in BODY_CHILD_CASES])
 
     def body_post_nw(c):
-        if isinstance(c.args["body"], VNoneT):
+        if isinstance(sb(c, "body"), VNoneT):
             return c.result.t == lit("")
-        return NW(c.result.t) == BODYN(c.args["body"].t, NCH(c.args["body"].t), c.args["include_formulas"].t)
+        return NW(c.result.t) == BODYN(sb(c, "body").t, NCH(sb(c, "body").t), sb(c, "include_formulas").t)
 
     def body_post_sq(c):
-        if isinstance(c.args["body"], VNoneT):
+        if isinstance(sb(c, "body"), VNoneT):
             return c.result.t == lit("")
-        bs = BODYS(c.args["body"].t, NCH(c.args["body"].t), c.args["include_formulas"].t)
+        bs = BODYS(sb(c, "body").t, NCH(sb(c, "body").t), sb(c, "include_formulas").t)
         return z3.If(c.result.t == lit(""), bs == lit(""), cc(" ", SQ(c.result.t)) == bs)
 
     body = FnContract(
         target=f"{DOCX}::_extract_full_text_from_body",
-        params=[("body", p_opt(p_elem())), ("include_formulas", Maker(lambda ex, st, name: VBool(z3.Bool(name)), desc="bool", default=lambda ex, st: VBool(True)))],
-        ensures=[("nw(result)==nw-of-blocks-in-order", body_post_nw),
-                 ("sq(result)==blocks-separated-by-whitespace", body_post_sq),
-                 ("result-empty-iff-no-visible-text", lambda c: (c.result.t == lit("")) == (NW(c.result.t) == lit("")))],
+        params=sb.params({"body": p_opt(p_elem()),
+                          "include_formulas": Maker(lambda ex, st, name: VBool(z3.Bool(name)), desc="bool", default=lambda ex, st: VBool(True))}),
+        ensures=[("nw(result)==nw-of-blocks-in-order", X.robust(body_post_nw)),
+                 ("sq(result)==blocks-separated-by-whitespace", X.robust(body_post_sq)),
+                 ("result-empty-iff-no-visible-text", X.robust(lambda c: (c.result.t == lit("")) == (NW(c.result.t) == lit(""))))],
         result_maker=lambda ex, st, ctx: VStr(z3.String(fresh_name("body_text"))),
-        loops={0: LoopSpec(inv=body_inv, label="blocks")},
     )
+    body.loop_match = lambda ex, st, node, it: (LoopSpec(inv=body_inv, label="blocks")
+                                                if elem_loop(it, st.frames[0].env.get(sb.name["body"])) else None)
     return [process, omml, para, table, body]
 
 
@@ -633,42 +667,44 @@ def dt_contracts(reg):
         out.append(FnContract(
             target=f"{DT}::{cls}.text_combined",
             params=[("self", p_obj(cls, {"title": title, "body_text": p_strlist(), "other_text": p_strlist(), "notes": p_strlist()}))],
-            ensures=[("nw(result)==title+body+other", nw_post), ("sq(result)==title,body,other-separated-by-whitespace", sq_post)],
+            ensures=[("nw(result)==title+body+other", X.robust(nw_post)), ("sq(result)==title,body,other-separated-by-whitespace", X.robust(sq_post))],
             note="speaker notes (self.notes) do not occur in the specified text, hence never in the result",
         ))
 
     # ---- PptxSlide.get_text ------------------------------------------------------------------
-    def base(c_or_lc, st):
-        return st.obj(c_or_lc["self"].ref).data["base_text"].t
+    sg = Sig(DT, "PptxSlide.get_text", ["self", "include_image_captions"])
+
+    def base(c):
+        return c.entry.obj(sg(c, "self").ref).data["base_text"].t
 
     def f_inv(lc):
-        b = base(lc, lc.st)
-        return Conj([("nw", NW(cat_of(lc.st, acc(lc))) == cc(NW(b), FN_N(lc.i))),
-                     ("sq", lead_of(lc.st, acc(lc)) == cc(lead_str(b), FN_S(lc.i)))])
+        (_n0, c0, l0), (_n1, c1, l1) = grown(lc)
+        return Conj([("nw", NW(c1) == cc(NW(c0), FN_N(lc.i))), ("sq", l1 == cc(l0, FN_S(lc.i)))])
 
     def i_inv(lc):
-        b = base(lc, lc.st)
-        nf = z3.Int("self.formulas.len")
-        return Conj([("nw", NW(cat_of(lc.st, acc(lc))) == cc(NW(b), FN_N(nf), IN_N(lc.i))),
-                     ("sq", lead_of(lc.st, acc(lc)) == cc(lead_str(b), FN_S(nf), IN_S(lc.i)))])
+        (_n0, c0, l0), (_n1, c1, l1) = grown(lc)
+        return Conj([("nw", NW(c1) == cc(NW(c0), IN_N(lc.i))), ("sq", l1 == cc(l0, IN_S(lc.i)))])
 
     def gt_nw(c):
-        b, nf, ni, inc = base(c.args, c.entry), z3.Int("self.formulas.len"), z3.Int("self.images.len"), c.args["include_image_captions"].t
+        b, nf, ni, inc = base(c), z3.Int("self.formulas.len"), z3.Int("self.images.len"), sg(c, "include_image_captions").t
         return NW(c.result.t) == cc(NW(b), FN_N(nf), z3.If(inc, IN_N(ni), lit("")))
 
     def gt_sq(c):
-        b, nf, ni, inc = base(c.args, c.entry), z3.Int("self.formulas.len"), z3.Int("self.images.len"), c.args["include_image_captions"].t
+        b, nf, ni, inc = base(c), z3.Int("self.formulas.len"), z3.Int("self.images.len"), sg(c, "include_image_captions").t
         return sep_claim(SQ(c.result.t), cc(lead_str(b), FN_S(nf), z3.If(inc, IN_S(ni), lit(""))))
 
-    out.append(FnContract(
+    gt = FnContract(
         target=f"{DT}::PptxSlide.get_text",
-        params=[("self", p_obj("PptxSlide", {"base_text": p_str(), "formulas": p_objseq("PptxFormula", F_AT), "images": p_objseq("PptxImage", IM_AT),
-                                             "footer": p_str(), "text": p_str()})),
-                ("include_image_captions", Maker(lambda ex, st, name: VBool(z3.Bool(name)), desc="bool", default=lambda ex, st: VBool(False)))],
-        ensures=[("nw(result)==base+formulas(+captions)", gt_nw), ("sq(result)==base,formulas(,captions)-separated-by-whitespace", gt_sq)],
-        loops={0: LoopSpec(inv=f_inv, label="formulas"), 1: LoopSpec(inv=i_inv, label="images")},
+        params=[(sg.name["self"], Maker(lambda ex, st, name: p_obj("PptxSlide", {"base_text": p_str(), "formulas": p_objseq("PptxFormula", F_AT),
+                                                                                 "images": p_objseq("PptxImage", IM_AT), "footer": p_str(),
+                                                                                 "text": p_str()}).make(ex, st, "self"), desc="PptxSlide")),
+                (sg.name["include_image_captions"], Maker(lambda ex, st, name: VBool(z3.Bool(name)), desc="bool", default=lambda ex, st: VBool(False)))],
+        ensures=[("nw(result)==base+formulas(+captions)", X.robust(gt_nw)), ("sq(result)==base,formulas(,captions)-separated-by-whitespace", X.robust(gt_sq))],
         note="comments, footer and the comment-bearing field `text` do not occur in the specified text",
-    ))
+    )
+    gt.loop_match = lambda ex, st, node, it: (LoopSpec(inv=f_inv, label="formulas") if isinstance(it, VSeq) and it.ekind == "PptxFormula"
+                                              else LoopSpec(inv=i_inv, label="images") if isinstance(it, VSeq) and it.ekind == "PptxImage" else None)
+    out.append(gt)
 
     # ---- DocContent.get_full_text: the documented title line ------------------------------------
     UNITS = z3.Const("doc.joined_unit_text", S)
@@ -744,50 +780,79 @@ define(PN, _pn_def)
 define(PN_KIDS, _pn_kids_def)
 
 
+def feeds_text_list(ex, st, node):
+    """The loop body appends to / extends a str list that exists before the loop (it accumulates text)."""
+    import ast
+    for sub in ast.walk(node):
+        tgt = None
+        if isinstance(sub, ast.Call) and isinstance(sub.func, ast.Attribute) and sub.func.attr in ("append", "extend") and isinstance(sub.func.value, ast.Name):
+            tgt = sub.func.value.id
+        elif isinstance(sub, ast.AugAssign) and isinstance(sub.target, ast.Name):
+            tgt = sub.target.id
+        if tgt is not None:
+            v = st.lookup(tgt)
+            if v is not None and _is_strlist(st, v):
+                return True
+    return False
+
+
+def children_of(it, node_v):
+    return isinstance(it, VSeq) and it.tag is not None and it.tag[0] == "hn.children" and isinstance(node_v, VExt) and it.tag[1].eq(node_v.t)
+
+
 def html_contracts(reg):
     reg.module_consts[(HTML, "_RE_WS")] = VExt("RegexWS")
     p_self = p_obj("_HtmlTextExtractor", {})
     p_flag = lambda dflt: Maker(lambda ex, st, name: VBool(z3.Bool(name)), desc="bool", default=lambda ex, st: VBool(dflt))
+    sgn = Sig(HTML, "_HtmlTextExtractor._get_node_text", ["self", "node", "include_children", "include_tail"])
 
     def gnt_inv(lc):
-        n = lc["node"].t
-        # `if node.get("text")` : an empty text contributes nothing either way
-        return Conj([("parts==text+texts-of-processed-children", cat_of(lc.st, acc(lc)) == cc(H_TEXT(n), HT_KIDS(n, lc.i)))])
+        n = lc.seq.tag[1]
+        (_n0, c0, _l0), (_n1, c1, _l1) = grown(lc)
+        return Conj([("parts==text+texts-of-processed-children", c1 == cc(c0, HT_KIDS(n, lc.i)))])
 
     gnt = FnContract(
         target=f"{HTML}::_HtmlTextExtractor._get_node_text",
-        params=[("self", p_self), ("node", p_hnode()), ("include_children", p_flag(True)), ("include_tail", p_flag(False))],
-        returns=lambda c: VStr(cc(z3.If(c.args["include_children"].t, HT(c.args["node"].t), H_TEXT(c.args["node"].t)),
-                                  z3.If(c.args["include_tail"].t, H_TAIL(c.args["node"].t), lit("")))),
-        loops={0: LoopSpec(inv=gnt_inv, label="children")},
+        params=sgn.params({"self": p_self, "node": p_hnode(), "include_children": p_flag(True), "include_tail": p_flag(False)}),
+        returns=lambda c: VStr(cc(z3.If(sgn(c, "include_children").t, HT(sgn(c, "node").t), H_TEXT(sgn(c, "node").t)),
+                                  z3.If(sgn(c, "include_tail").t, H_TAIL(sgn(c, "node").t), lit("")))),
     )
+    gnt.loop_match = lambda ex, st, node, it: (LoopSpec(inv=gnt_inv, label="children")
+                                               if children_of(it, st.frames[0].env.get(sgn.name["node"])) else None)
     extract_table = FnContract(target=f"{HTML}::_HtmlTextExtractor._extract_table", params=[("self", p_self), ("table_node", p_hnode())],
                                assumed=True, returns=lambda c: VExt("HtmlTableData", TD_OF(c.args["table_node"].t)),
                                note="table content: BOUNDED check html.extract (replay/C02.py)")
     format_table = FnContract(target=f"{HTML}::_HtmlTextExtractor._format_table_as_text",
                               params=[("self", p_self), ("table_data", Maker(lambda ex, st, n: VExt("HtmlTableData"), desc="table data"))],
                               assumed=True, returns=lambda c: VStr(TD_TEXT(c.args["table_data"].t)), note="BOUNDED check html.extract")
+    spn = Sig(HTML, "_HtmlTextExtractor._process_node", ["self", "node", "depth", "include_tail"])
 
-    def pn_inv(var):
-        def inv(lc):
-            n = lc["node"].t
-            return Conj([("nw", NW(cat_of(lc.st, acc(lc))) == cc(NW(H_TEXT(n)), PN_KIDS(n, lc.i)))])
-        return inv
+    def pn_inv(lc):
+        n = lc.seq.tag[1]
+        (_n0, c0, _l0), (_n1, c1, _l1) = grown(lc)
+        return Conj([("nw", NW(c1) == cc(NW(c0), PN_KIDS(n, lc.i)))])
 
     pn = FnContract(
         target=f"{HTML}::_HtmlTextExtractor._process_node",
-        params=[("self", p_obj("_HtmlTextExtractor", {"tables": Maker(lambda ex, st, n: VUnk(n), desc="list")})), ("node", p_hnode()),
-                ("depth", Maker(lambda ex, st, name: VInt(z3.Int(name)), desc="int", default=lambda ex, st: VInt(0))),
-                ("include_tail", p_flag(False))],
-        requires=lambda c: z3.Not(tag_in(H_TAG(c.args["node"].t), H_REMOVE)),
+        params=spn.params({"self": p_obj("_HtmlTextExtractor", {"tables": Maker(lambda ex, st, n: VUnk(n), desc="list")}), "node": p_hnode(),
+                           "depth": Maker(lambda ex, st, name: VInt(z3.Int(name)), desc="int", default=lambda ex, st: VInt(0)),
+                           "include_tail": p_flag(False)}),
+        requires=lambda c: z3.Not(tag_in(H_TAG(spn(c, "node").t), H_REMOVE)),
         ensures=[("nw(result)==rendered(node)(+tail)",
-                  lambda c: NW(c.result.t) == cc(PN(c.args["node"].t), z3.If(c.args["include_tail"].t, NW(H_TAIL(c.args["node"].t)), lit(""))))],
+                  X.robust(lambda c: NW(c.result.t) == cc(PN(spn(c, "node").t), z3.If(spn(c, "include_tail").t, NW(H_TAIL(spn(c, "node").t)), lit("")))))],
         result_maker=lambda ex, st, ctx: VStr(z3.String(fresh_name("rendered"))),
         raises=[Raises("Exception", sub=True)],
-        modifies=("self",),
-        loops={0: LoopSpec(inv=pn_inv(None), label="li-children"), 1: LoopSpec(inv=pn_inv(None), label="children")},
+        modifies=(spn.name["self"],),
         note="requires: the node is not of a removed tag (class invariant of the tree the builder makes, C17)",
     )
+
+    def pn_loops(ex, st, node, it):
+        nv = st.frames[0].env.get(spn.name["node"])
+        if not children_of(it, nv):
+            return None
+        is_li = not ex.feasible(st.pc, H_TAG(nv.t) != lit("li"))
+        return LoopSpec(inv=pn_inv, label="li-children" if is_li else "children")
+    pn.loop_match = pn_loops
     return [gnt, extract_table, format_table, pn]
 
 
@@ -815,32 +880,49 @@ define(GRID_NW, lambda h, k: prefix_def(GRID_NW(h, k), k, cc(GRID_NW(h, z3.simpl
 
 
 def xls_contracts():
-    def the_row(lc):
-        params = {p[0] for p in lc.ex.contract.params}
-        rows = [v for k, v in lc.st.frame.env.items() if k not in params and isinstance(v, VExt) and v.sort == "StrRow"]
-        if len({str(v.t) for v in rows}) != 1:
-            raise X.Unsupported("current row not identified")
-        return rows[0].t
+    sx = Sig(XLS, "_format_sheet_as_text", ["headers", "rows"])
+
+    def row_of(seq):
+        """The row a cell loop runs over: `for v in row` / `for i, v in enumerate(row)`."""
+        if isinstance(seq, VExt) and seq.sort == "StrRow":
+            return seq.t
+        if isinstance(seq, VSeq) and seq.tag is not None and seq.tag[-2] == "row.cells":
+            return seq.tag[-1]
+        return None
 
     def outer_inv(lc):
-        return Conj([("nw", NW(cat_of(lc.st, acc(lc, pick="outer"))) == GRID_NW(lc["headers"].t, lc.i))])
+        (_n0, c0, _l0), (_n1, c1, _l1) = grown(lc)
+        return Conj([("nw", NW(c1) == cc(NW(c0), GRID_NW(top(lc, sx.name["headers"]).t, lc.i)))])
 
     def inner_inv(lc):
-        return Conj([("nw", NW(cat_of(lc.st, acc(lc))) == ROW_NW(the_row(lc), lc.i))])
+        (_n0, c0, _l0), (_n1, c1, _l1) = grown(lc)
+        return Conj([("nw", NW(c1) == cc(NW(c0), ROW_NW(row_of(lc.seq), lc.i)))])
 
     def post(c):
-        h = c.args["headers"].t
-        n = z3.Int("rows.len")
+        h = sx(c, "headers").t
+        n = z3.Int(f"{sx.name['rows']}.len")
         return NW(c.result.t) == GRID_NW(h, z3.If(RLEN(h) > 0, n + 1, n))
 
-    return [FnContract(
+    fmt = FnContract(
         target=f"{XLS}::_format_sheet_as_text",
-        params=[("headers", X.p_strrow()), ("rows", X.p_rowseq(ROWS_AT))],
-        ensures=[("nw(result)==row-major-nw-of-cells", post)],
+        params=sx.params({"headers": X.p_strrow(), "rows": X.p_rowseq(ROWS_AT)}),
+        ensures=[("nw(result)==row-major-nw-of-cells", X.robust(post))],
         raises=[Raises("Exception", sub=True)],
-        loops={2: LoopSpec(inv=outer_inv, label="rows"), 3: LoopSpec(inv=inner_inv, label="cells")},
-        note="column widths are irrelevant to nw (rjust is whitespace): the width pass (loops 0, 1) is cut with invariant True",
-    )]
+        note="column widths are irrelevant to nw (rjust is whitespace): loops that do not feed a text list (the width pass) are cut with invariant True",
+    )
+
+    def loops(ex, st, node, it):
+        if not feeds_text_list(ex, st, node):
+            return None
+        if row_of(it) is not None:
+            return LoopSpec(inv=inner_inv, label="cells")
+        if isinstance(it, VSeq) and it.ekind == "StrRow":
+            return LoopSpec(inv=outer_inv, label="rows")
+        return None
+    fmt.loop_match = loops
+    return [fmt]
+
+
 
 
 # =====================================================================================
